@@ -171,11 +171,11 @@ pub fn record(output: &str) {
     quiet_panics();
     let mut out = Out::create(output);
     let mut r = rng(1212);
-    let n_cases = if thorough() { 96 } else { 16 };
+    let n_cases = if thorough() { 108 } else { 18 };
     let mut case_no = 0usize;
     let reps = if thorough() { 3 } else { 1 };
     for k in 0..n_cases {
-        let obstacle_class = ["free", "blocking", "grazing", "at-stroke-pose", "wrist-flip", "branch-blocking", "repeated-poses", "fragile"][k % 8];
+        let obstacle_class = ["free", "blocking", "grazing", "at-stroke-pose", "wrist-flip", "branch-blocking", "repeated-poses", "fragile", "turning"][k % 9];
         let y0 = r.gen_range(-0.25..-0.1);
         let y1 = r.gen_range(0.1..0.25);
         let x = r.gen_range(0.85..1.0);
@@ -205,6 +205,16 @@ pub fn record(output: &str) {
             steps = ys.iter().map(|y| down_pose(x, *y, z, yaw)).collect();
             land = steps[0];
             park = steps[3];
+        }
+        if obstacle_class == "turning" {
+            // the tool turns by 9 degrees from pose to pose; every second pose is written with the opposite sign of the
+            // quaternion (the same rotation)
+            nsteps = 4;
+            steps = (0..4).map(|i| {
+                let p = down_pose(x, y0 + (y1 - y0) * i as f64 / 3.0, z, yaw + 0.16 * i as f64);
+                if i % 2 == 1 { Pose::from_parts(p.translation, nalgebra::UnitQuaternion::new_unchecked(-p.rotation.into_inner())) } else { p }
+            }).collect();
+            park = down_pose(x, y1, z + 0.1, yaw + 0.48);
         }
         if obstacle_class == "wrist-flip" {
             // the tool spins by 430 degrees along the stroke while joint 6 may only turn +-137 degrees: somewhere in
@@ -294,8 +304,10 @@ pub fn record(output: &str) {
                                     let b = &originals[next_original];
                                     // on the straight segment, orientation between the two (both stroke poses share it here)
                                     let d = seg_dist(&here.t, &a.t, &b.t);
-                                    let rot = here.drot(a).min(here.drot(b));
-                                    seg_um = ((d.max(if a.drot(b) < 1e-9 { rot } else { 0.0 })) * 1e6).round() as i64;
+                                    // orientation: on the shortest turn from one pose to the other (the two angles add up to
+                                    // the angle between the poses); in micro-radians, like the position in micrometres
+                                    let excess = (here.drot(a) + here.drot(b) - a.drot(b)).abs();
+                                    seg_um = ((d.max(excess)) * 1e6).round() as i64;
                                 }
                                 let cost = if i == 0 { 0.0 } else { transition_costs(&path[i - 1].joints, &w.joints, &coeffs) };
                                 // distances of all pairs of bodies from brute force (the verdict is TLC's: module Collision)
